@@ -357,6 +357,8 @@ def verify_range(prog, contracts, qual):
         ex = RangeExec(prog, contracts, qual)
     except KeyError as e:
         return [], f'contract no longer attaches: {e}'
+    wr = prog.wrapped_by(qual)
+    if wr: return [], f'function is wrapped by decorator(s) {wr}: a range contract proved on the body does not transfer to the name'
     names = [a.arg for a in ex.fn.args.args]
     if set(names) != set(c.pre): return [], f'contract no longer attaches: parameters {names} vs {sorted(c.pre)}'
     env = {n: c.pre[n] for n in names}
